@@ -10,18 +10,39 @@
  */
 
 #include <cmath>
+#include <type_traits>
 
 #include "common.hpp"
 
 SMOOTH_BEGIN_NAMESPACE
 
 namespace detail {
+/**
+ * @brief Squared-argument switch point between the three-term Taylor expansion and the closed
+ * form of the order-N tail.
+ *
+ * The closed forms subtract the leading Taylor terms from sin/cos and divide by x^N, so their
+ * rounding error grows like eps * N! / x^N as x -> 0, while the truncation error of the
+ * three-term expansions grows like x^6. The switch points below are where the two meet, for
+ * single (eps ~ 6e-8) and double (eps ~ 1e-16) precision respectively.
+ */
+template<typename S, int N>
+constexpr double tail_eps2()
+{
+  constexpr bool is_single = std::is_same_v<S, float>;
+  if constexpr (N == 2) { return is_single ? 0.22 : 1.4e-3; }
+  if constexpr (N == 3) { return is_single ? 0.38 : 2.5e-3; }
+  if constexpr (N == 4) { return is_single ? 0.74 : 1.3e-2; }
+  if constexpr (N == 5) { return is_single ? 1.2 : 2.1e-2; }
+  if constexpr (N == 6) { return is_single ? 1.7 : 6e-2; }
+}
+
 template<typename S>
 S cos_2(const S & x2)
 {
   using std::cos, std::sqrt;
 
-  if (x2 > S(eps2)) {
+  if (x2 > S(tail_eps2<S, 2>())) {
     const S x = sqrt(x2);
     return (cos(x) - S(1)) / x2;
   } else {
@@ -34,7 +55,7 @@ S sin_3(const S & x2)
 {
   using std::sin, std::sqrt;
 
-  if (x2 > S(eps2)) {
+  if (x2 > S(tail_eps2<S, 3>())) {
     const S x = sqrt(x2);
     return (sin(x) - x) / (x2 * x);
   } else {
@@ -47,7 +68,7 @@ S cos_4(const S & x2)
 {
   using std::cos, std::sqrt;
 
-  if (x2 > S(eps2)) {
+  if (x2 > S(tail_eps2<S, 4>())) {
     const S x = sqrt(x2);
     return (cos(x) - S(1) + x2 / S(2)) / (x2 * x2);
   } else {
@@ -60,7 +81,7 @@ S sin_5(const S & x2)
 {
   using std::sin, std::sqrt;
 
-  if (x2 > S(eps2)) {
+  if (x2 > S(tail_eps2<S, 5>())) {
     const S x = sqrt(x2);
     return (sin(x) - x + x2 * x / 6) / (x2 * x2 * x);
   } else {
@@ -74,7 +95,7 @@ S cos_6(const S & x2)
   using std::cos, std::sqrt;
 
   const S x4 = x2 * x2;
-  if (x2 > S(eps2)) {
+  if (x2 > S(tail_eps2<S, 6>())) {
     const S x = sqrt(x2);
     return (cos(x) - S(1) + x2 / S(2) - x4 / S(24)) / (x4 * x2);
   } else {
